@@ -177,12 +177,15 @@ class HTTPChannel(wasyncore.dispatcher):
             # Client disconnected.
             self.connected = False
 
-    def send_continue(self):
+    def send_continue(self, do_close=True):
         """
         Send a 100-Continue header to the client. This is either called from
         receive (if no requests are running and the client expects it) or at
         the end of service (if no more requests are queued and a request has
         been read partially that expects it).
+
+        service runs in a worker thread, which must leave closing the
+        channel to the main thread: it passes do_close=False.
         """
         self.request.expect_continue = False
         outbuf_payload = b"HTTP/1.1 100 Continue\r\n\r\n"
@@ -192,7 +195,7 @@ class HTTPChannel(wasyncore.dispatcher):
             self.current_outbuf_count += num_bytes
             self.total_outbufs_len += num_bytes
             self.sent_continue = True
-            self._flush_some()
+            self._flush_some(do_close=do_close)
 
     def received(self, data):
         """
@@ -522,7 +525,7 @@ class HTTPChannel(wasyncore.dispatcher):
                     # A request waits for a signal to continue, but we could
                     # not send it until now because requests were being
                     # processed and the output needs to be kept in order
-                    self.send_continue()
+                    self.send_continue(do_close=False)
 
         if self.connected:
             self.server.pull_trigger()
